@@ -424,3 +424,38 @@ pub fn prep_client(state: usize, rng: &mut Rng) -> Result<ClientRig, String> {
     }
     Ok(rig)
 }
+
+// ---------------------------------------------------------------------------------------------
+// canonical, comparable renderings of events (f64 by bit pattern, objects as sorted maps)
+
+pub fn norm_server_event(e: &ServerSessionEvent) -> String {
+    match e {
+        ServerSessionEvent::UnhandleableAmf0Command { command_name, transaction_id, command_object, additional_values } => format!(
+            "UnhandleableAmf0Command name={:?} txid_bits={:016x} object={:?} values={:?}",
+            command_name,
+            transaction_id.to_bits(),
+            V::from_lib(command_object),
+            amf::seq_from_lib(additional_values)
+        ),
+        other => format!("{:?}", other),
+    }
+}
+
+pub fn norm_client_event(e: &ClientSessionEvent) -> String {
+    match e {
+        ClientSessionEvent::UnhandleableAmf0Command { command_name, transaction_id, command_object, additional_values } => format!(
+            "UnhandleableAmf0Command name={:?} txid_bits={:016x} object={:?} values={:?}",
+            command_name,
+            transaction_id.to_bits(),
+            V::from_lib(command_object),
+            amf::seq_from_lib(additional_values)
+        ),
+        ClientSessionEvent::UnknownTransactionResultReceived { transaction_id, command_object, additional_values } => format!(
+            "UnknownTransactionResultReceived txid_bits={:016x} object={:?} values={:?}",
+            transaction_id.to_bits(),
+            V::from_lib(command_object),
+            amf::seq_from_lib(additional_values)
+        ),
+        other => format!("{:?}", other),
+    }
+}
